@@ -116,6 +116,15 @@ def norm_cmp(op, a, b):
     for _ in range(4):
         if is_int(a) and not is_int(b):
             op, a, b = _FLIP[op], b, a
+        if isinstance(a, tuple) and len(a) == 3 and a[0] == "satsub" and is_int(b) and b[1] == 0 \
+                and not _maybe_signed(a[1]) and not _maybe_signed(a[2]):
+            # x.saturating_sub(y) == 0  <=>  x <= y ;  != 0 / > 0  <=>  x > y
+            if op in ("Eq", "Le"):
+                op, a, b = "Le", a[1], a[2]
+                continue
+            if op in ("Ne", "Gt"):
+                op, a, b = "Gt", a[1], a[2]
+                continue
         if _is_sub(a) and is_int(b) and b[1] == 0:
             if op in ("Eq", "Ne", "Gt"):
                 a, b = a[2], a[3]
@@ -525,11 +534,25 @@ def linsys_from_facts(facts):
 MINMAX = ("min", "max", "satsub")
 
 
+def _innermost_minmax(t):
+    """a min/max/saturating_sub subterm of t none of whose arguments contains another one (splitting inside-out
+    lets the facts decide the outer ones)"""
+    found = None
+    for s in subterms(t):
+        if isinstance(s, tuple) and s and s[0] in MINMAX:
+            inner = [x for arg in s[1:] for x in subterms(arg)
+                     if isinstance(x, tuple) and x and x[0] in MINMAX]
+            if not inner:
+                return s
+            found = found or s
+    return found
+
+
 def _find_minmax(f):
     for a in f.c:
-        for s in subterms(a):
-            if isinstance(s, tuple) and s and s[0] in MINMAX:
-                return s
+        s = _innermost_minmax(a)
+        if s is not None:
+            return s
     return None
 
 
@@ -561,9 +584,33 @@ def subst_affine(f, old, new):
     return r
 
 
+def _resolve_variants_term(t, facts):
+    """Option::unwrap_or(x, d) whose variant the path condition knows: the payload, or d"""
+    if not isinstance(t, tuple):
+        return t
+    t2 = tuple(_resolve_variants_term(x, facts) if isinstance(x, tuple) else x for x in t)
+    if t2 and t2[0] == "unwrap_or" and len(t2) == 3:
+        v = facts.variant.get(t2[1])
+        if v == "Some":
+            return ("field", t2[1], "Some", "0")
+        if v == "None":
+            return t2[2]
+    return t2
+
+
+def resolve_variants(form, facts):
+    if not facts.variant or not any("unwrap_or" in repr(a) for a in form.c):
+        return form
+    r = Affine(k=form.k)
+    for a, v in form.c.items():
+        r = r.add(affine(_resolve_variants_term(a, facts)), v)
+    return r
+
+
 def prove_zero(form, facts, extra_eqs=(), depth=0):
     """Is `form` == 0 under the facts?  Case-splits min/max/saturating_sub atoms (both orders unless
     the facts decide one).  Returns (ok, witness_description)."""
+    form = resolve_variants(form, facts)
     ls = linsys_from_facts(facts)
     for e in extra_eqs:
         ls.add_eq(e)
@@ -600,6 +647,8 @@ def prove_zero(form, facts, extra_eqs=(), depth=0):
             # a <= b assumed and a >= b known: a == b
             eqs2.append(affine(a).add(affine(b), -1))
         f3 = _subst_facts(f2, mm, val)
+        if getattr(f3, "contradictory", False):
+            continue
         ok, why = prove_zero(form2, f3, eqs2, depth + 1)
         if not ok:
             return False, "case %s=%s: %s" % (short(mm), short(val), why)
@@ -617,6 +666,10 @@ def _subst_facts(facts, old, new):
         a2 = subst(atom, old, new)
         if a2[0] == "eq":
             a2 = _eq_atom(a2[1], a2[2])
+        if a2 != atom or a2 in f.atoms:
+            d = f.decide_atom(a2)
+            if d is not None and d != pol:
+                f.contradictory = True     # the case assumed is impossible under the path condition
         f.atoms[a2] = pol
         f.order.append((a2, pol))
     return f
@@ -658,6 +711,8 @@ def prove_pos(form, facts, depth=0):
             f2.atoms[atom] = pol
             f2.order.append((atom, pol))
         f3 = _subst_facts(f2, mm, val)
+        if getattr(f3, "contradictory", False):
+            continue
         ok, why = prove_pos(subst_affine(form, mm, val), f3, depth + 1)
         if not ok:
             return False, "case %s=%s: %s" % (short(mm), short(val), why)
@@ -699,6 +754,8 @@ def prove_nonneg(form, facts, depth=0):
             f2.atoms[atom] = pol
             f2.order.append((atom, pol))
         f3 = _subst_facts(f2, mm, val)
+        if getattr(f3, "contradictory", False):
+            continue
         ok, why = prove_nonneg(subst_affine(form, mm, val), f3, depth + 1)
         if not ok:
             return False, "case %s=%s: %s" % (short(mm), short(val), why)
